@@ -5,6 +5,7 @@ import DM.Drv.C08
 import DM.Drv.Enc
 import DM.Drv.Dec
 import DM.Drv.C17
+import DM.Drv.RS
 open DM.Drv
 
 def dispatch (args : List String) : String :=
@@ -27,6 +28,9 @@ def dispatch (args : List String) : String :=
   | some r => r
   | none =>
   match c17 args with
+  | some r => r
+  | none =>
+  match rsOp args with
   | some r => r
   | none => "bad-op"
 
